@@ -7,3 +7,6 @@ package app
 func VerifBuildPathResolver(paths []string) (func(string) string, error) {
 	return buildPathResolver(paths)
 }
+
+func VerifClearResumeData(outDir, root string) error { return clearResumeData(outDir, root) }
+func VerifHasResumeData(outDir, root string) bool   { return hasResumeData(outDir, root) }
